@@ -150,7 +150,7 @@ fn k_in_2_never_change_write_panics() {
 #[cfg_attr(salsa_verif_replay, test)]
 fn k_in_3_field_read_reports_field_stamp() {
     let z = crate::zalsa::verif::bare_zalsa();
-    let local = ZalsaLocal::new();
+    let local = crate::zalsa_local::verif::local_static();
     let ing = IngredientImpl::<KI>::new(IngredientIndex::new(0));
     let (fr0, fr1) = (vk::any_revision(), vk::any_revision());
     let (d0, d1) = (vk::any_durability(), vk::any_durability());
